@@ -192,11 +192,19 @@ PLAN["C18"] = other(
     "range of the outer search, and splicing, are checked on the stated bounded domain.", ["c18_zero_crossing"],
     "; the termination variant of DESIGN 4/C18 is not built")
 PLAN["C19"] = other(
+    "Deductive: the value-modification clause - KlattPointTier.modifyValues is proved to replace every value v of the "
+    "tier by modFunc(float(v)), once, keeping every time, the order and the span, for an arbitrary (uninterpreted) "
+    "modFunc and entry lists of any length; KlattContainerTier.modifySubtiers is proved to do exactly that to every "
+    "point tier of the addressed intermediate tier and to leave every other tier, the name lists and the spans "
+    "untouched (KeyError for an unknown name; hierarchy of enumerated shape: 0..3 point tiers in the addressed tier, 0 "
+    "or 2 in another); toIntOrFloat returns the same number. "
     "Bounded: KlattGrid open/save/open (reference file and synthetic grids, 15 modification functions with an "
     "exactly-once counting wrapper) and point objects (all point lists <= 4 over the number set, 3 classes, long and "
     "short forms) against independent readers/writers in /verif/spec.",
-    "KlattGrid and point-object files round-trip every number exactly on the stated bounded domain.",
-    ["c19_klatt_roundtrip", "c19_points_roundtrip"], "; no deductive obligation is specific to C19 yet (stated)")
+    "Value modification touches exactly the addressed values, once (proved); KlattGrid and point-object files "
+    "round-trip every number exactly on the stated bounded domain.",
+    ["c19_klatt_roundtrip", "c19_points_roundtrip"], "; the offset-slicing readers and the text writers are outside "
+    "the uninterpreted string model (DESIGN 9.3)")
 PLAN["C20"] = other(
     "Deductive: medianFilter (through the real _stepFilter) is proved, for series of any length and windows 0..8 with "
     "and without edge padding, to return a list of the input's length whose element i is the median of element i and "
@@ -523,4 +531,8 @@ CANARIES = [
      "target": "praatio.audio._computeKeepDeleteIntervals",
      "old": "        (start, end, _DELETE) for start, end in computedDeleteIntervals", "new": "        (start, end, _KEEP) for start, end in computedDeleteIntervals",
      "config": ["keep=None,delete=sym"]},
+    {"name": "modify-subtiers-twice", "props": ["C19"], "file": "praatio/data_classes/klattgrid.py",
+     "target": "praatio.data_classes.klattgrid.KlattContainerTier.modifySubtiers",
+     "old": "            subpointTier.modifyValues(modFunc)", "new": "            subpointTier.modifyValues(modFunc)\n            subpointTier.modifyValues(modFunc)",
+     "config": ["n_addressed=2,n_other=2,tierName=oral"]},
 ]
